@@ -100,6 +100,7 @@ pub fn ref_entity(tr: &TypesRef, ty: &ComponentEntityType, num: &mut Num<Resourc
         ComponentEntityType::Type { referenced, .. } => match referenced {
             ComponentAnyTypeId::Defined(id) => json!({"c": "type", "def": ref_val(tr, &ComponentValType::Type(*id), num)}),
             ComponentAnyTypeId::Resource(r) => json!({"c": "type", "def": format!("resource#{}", num.of(r.resource()))}),
+            ComponentAnyTypeId::Func(id) => json!({"c": "type", "def": ref_entity(tr, &ComponentEntityType::Func(*id), num)}),
             other => json!({"c": "type", "def": format!("{other:?}")}),
         },
         ComponentEntityType::Module(_) => json!({"c": "module"}),
@@ -146,7 +147,9 @@ pub fn wac_val(types: &Types, ty: ValueType, num: &mut Num<wac_types::ResourceId
 
 pub fn wac_entity(types: &Types, kind: ItemKind, num: &mut Num<wac_types::ResourceId>) -> Value {
     match kind {
-        ItemKind::Func(id) | ItemKind::Type(Type::Func(id)) => {
+        // a TYPE item whose type is a function type is not a function
+        ItemKind::Type(Type::Func(id)) => json!({"c": "type", "def": wac_entity(types, ItemKind::Func(id), num)}),
+        ItemKind::Func(id) => {
             let f = &types[id];
             let ps: Vec<Value> = f.params.iter().map(|(n, t)| json!([n, wac_val(types, *t, num)])).collect();
             json!({"c": "fn", "ps": ps, "r": f.result.map(|t| wac_val(types, t, num)).unwrap_or_else(|| "_".into()), "async": f.is_async})
